@@ -36,10 +36,14 @@ type c19Params struct {
 	InputFirst bool `json:"input_first,omitempty"`
 	// Shell: the remote side is a shell that answers every Enter it is sent on its own (the re-prompt Enter the
 	// product types when it hands the terminal back) with a numbered prompt
-	Shell   bool `json:"shell,omitempty"`
-	Bound   int  `json:"bound"`
-	Shard   int  `json:"shard"`
-	NShards int  `json:"nshards"`
+	Shell bool `json:"shell,omitempty"`
+	// Typed (uploads): the remote rz is started by the wrapper itself (UploadFiles with the upload command set to rz: it types
+	// Ctrl-C and "rz" + Enter); the remote echo of that command arrives in the same read as rz's start header
+	// ("merged") or as a read of its own ("split"). The session must start all the same.
+	Typed   string `json:"typed,omitempty"`
+	Bound   int    `json:"bound"`
+	Shard   int    `json:"shard"`
+	NShards int    `json:"nshards"`
 }
 
 const zFinish = "**\x18B0800000000022d\r\x8a"
@@ -144,7 +148,12 @@ func c19Exec(p c19Params) vs.ExecFn {
 			helper.serverOK = func() bool { return serverFinished }
 			filter := NewTrzszFilter(keys, term, c2s, s2c, TrzszOptions{EnableZmodem: true, TerminalColumns: 80})
 			filter.SetDefaultDownloadPath(filepath.Join(root, "dl"))
-			if p.Upload {
+			if p.Upload && p.Typed != "" {
+				filter.SetDragFileUploadCommand("rz")
+				if err := filter.UploadFiles([]string{filepath.Join(root, "up.txt")}); err != nil {
+					panic(err)
+				}
+			} else if p.Upload {
 				if _, err := filter.OneTimeUpload([]string{filepath.Join(root, "up.txt")}); err != nil {
 					panic(err)
 				}
@@ -175,10 +184,24 @@ func c19Exec(p c19Params) vs.ExecFn {
 				})
 			}
 			gotCancel := func() bool { return bytes.Contains(c2s.Written, zmodemCancelSubSequence) }
-			fromClient := func() bool { return len(c2s.Written) > 0 }
+			c2sMark := 0
+			fromClient := func() bool { return len(c2s.Written) > c2sMark }
 			vs.GoDaemon("remote", func() {
-				s2c.Write([]byte("$ rz\r\n"))
-				s2c.Write([]byte(header))
+				switch p.Typed {
+				case "":
+					s2c.Write([]byte("$ rz\r\n"))
+					s2c.Write([]byte(header))
+				default:
+					// the shell: echoes the command line the wrapper typed, rz prints its header
+					vs.WaitUntil("remote.typed", func() bool { return bytes.Contains(c2s.Written, []byte("rz\r")) })
+					c2sMark = len(c2s.Written)
+					if p.Typed == "merged" {
+						s2c.Write([]byte("rz\r\n" + header))
+					} else {
+						s2c.Write([]byte("rz\r\n"))
+						s2c.Write([]byte(header))
+					}
+				}
 				if p.Veto != "" {
 					return
 				}
@@ -304,6 +327,9 @@ func c19Exec(p c19Params) vs.ExecFn {
 			violation = "deadlock"
 		case p.Veto != "" && o.helperStarts > 0:
 			violation = fmt.Sprintf("a header accompanied by %s started a session (helper launched)", p.Veto)
+		case p.Typed != "" && p.Veto == "" && s.Stall == 0 && o.helperStarts == 0:
+			// (a whole-process stall of seconds may let the 3 s in which the wrapper waits for its rz run out: then the dialog is right)
+			violation = fmt.Sprintf("the wrapper typed rz itself; its echo and rz's start header arrived (%s): no session was started, the remote rz is left waiting (the remote side received %q)", p.Typed, clipStr(string(o.c2s), 60))
 		case p.InputFirst && o.inputFirst != "ok" && o.inputFirst != "session still active" && o.inputFirst != "":
 			violation = o.inputFirst
 		case strings.HasPrefix(p.Server, "cancel-before") && p.Veto == "" && p.CtrlCMs < 0 && s.Stall == 0 && o.helperStarts > 0:
@@ -340,7 +366,7 @@ func c19Exec(p c19Params) vs.ExecFn {
 			if p.InputFirst {
 				pfx = "c05:zmodem-history"
 			}
-			res.Signature = fmt.Sprintf(pfx+":helper=%s:server=%s:ctrlc=%v:%s", p.Helper, p.Server, p.CtrlCMs >= 0, lineNoRe.ReplaceAllString(firstWords(violation, 9), ""))
+			res.Signature = fmt.Sprintf(pfx+":helper=%s:server=%s:ctrlc=%v:%s", p.Helper+p.Typed, p.Server, p.CtrlCMs >= 0, lineNoRe.ReplaceAllString(firstWords(violation, 9), ""))
 		}
 		return res
 	}
@@ -388,7 +414,7 @@ func init() {
 		ID:    "C19",
 		Level: "model_checking",
 		Rule: "real filter with zmodem enabled x helper behaviour {missing, exits 0, exits 1, runs 0/1/3 chunks then finishes, never outputs, outputs after the remote finished} x remote behaviour {finishes, cancels before the helper starts (lrzsz cancel string in one read, cut into two reads, the 8 x CAN form, and exactly when the 100 ms grace ends) / after it started, keeps sending 2 s, quiet} x Ctrl-C {none, 0 ms, 150 ms, 1 s after the header} x upload/download, " +
-			"plus headers vetoed by a cancel sequence or 'cannot open'; all schedules within 1 (quick) / 2 (thorough) deviations of the default one, a timer landing first being one of them; then a transparency probe 0.7 s and 1.4 s after the remote went quiet",
+			"plus headers vetoed by a cancel sequence or 'cannot open', and uploads whose rz the wrapper typed itself (echo and header in one read / in two); all schedules within 1 (quick) / 2 (thorough) deviations of the default one, a timer landing first being one of them; then a transparency probe 0.7 s and 1.4 s after the remote went quiet",
 		Assumptions: []string{"the local rz/sz is a model (vexec): it leaves when killed or sent the cancel sequence, real lrzsz is not installed", "the remote rz/sz is scripted; after a cancel it prints a line and a prompt except in the 'quiet' behaviour"},
 		TraceNote:   "explored directly on the implementation; the number counts executions replayed from recorded choice lists",
 		QuickBudget: 110, ThoroughBudget: 1500,
@@ -407,6 +433,15 @@ func init() {
 							}
 							p := c19Params{Upload: up, Helper: h, Server: srv, CtrlCMs: cc, Bound: bound, NShards: 1}
 							jobs = append(jobs, vs.MkJob(fmt.Sprintf("up=%v helper=%s server=%s ctrlc=%d b%d", up, h, srv, cc, bound), p))
+						}
+					}
+				}
+				if up {
+					for _, typed := range []string{"merged", "split"} {
+						for _, h := range []string{"run1", "missing", "silent"} {
+							for _, srv := range []string{"finish", "cancel-after", "quiet"} {
+								jobs = append(jobs, vs.MkJob(fmt.Sprintf("typed=%s helper=%s server=%s b%d", typed, h, srv, bound), c19Params{Upload: true, Helper: h, Server: srv, CtrlCMs: -1, Typed: typed, Bound: bound, NShards: 1}))
+							}
 						}
 					}
 				}
